@@ -123,7 +123,8 @@ def replay(path):
 W = dict
 PROFILES = {
     "C01": [("nesting", dict(intxn_defs=0.5, scoped=0.5, deep_nest=0.5, nest=0.8, unlisten=0.3, unlisten_in_txn=0.3, n_listen=(2, 5), obs=0.2)),
-            ("carry-over", dict(n_defs=(4, 10), n_listen=(2, 5), max_defer=3, posts=0.2, nest=0.6, weights=W(defer=5, split=2, map=5, merge=6, orelse=2, snapshot=2, hold=2, gate=1))),
+            ("carry-over", dict(n_defs=(4, 10), n_listen=(2, 5), max_defer=3, posts=0.2, nest=0.6, routehandler=0.7,
+                                weights=W(defer=5, split=2, map=5, merge=6, orelse=2, snapshot=2, hold=2, gate=1, router=1.5))),
             ("late-listeners", dict(intxn_defs=0.8, nest=0.9, n_listen=(0, 2))),
             # a switch over freshly built streams constructed in the same transaction as the sends it must see
             ("dynamic-in-txn", dict(intxn_defs=0.9, nest=0.95, n_listen=(0, 2), n_defs=(3, 8), sends_per_txn=(1, 3),
@@ -131,13 +132,13 @@ PROFILES = {
                                               csink=4, ssink=3, map=3, hold=2, merge=2)))],
     "C02": [("streams", dict(n_defs=(4, 14), samples=0.1, self_merge=True,
                              weights=W(map=5, mapto=1, filter=3, filteropt=1, merge=6, orelse=2, snapshot=3, snapshot1=1, snapshotn=1.5, gate=2, once=2,
-                                       hold=1.5, mapc=0.5, lift2=0.5, liftn=0, accum=0.5, collect=0.3, value=0.3, updates=1))),
+                                       hold=1.5, mapc=0.5, lift2=0.5, liftn=0, accum=0.5, collect=0.3, value=0.3, updates=1, ancestormerge=0.6))),
             ("streams-intxn", dict(n_defs=(3, 10), intxn_defs=0.5, self_merge=True, weights=W(once=3, merge=6, gate=2, switchlatec=1.5, switchlate=1, latelisten=2.5, handlerlisten=2))),
             # events re-emitted by defer/split/post in transactions of their own, meeting streams derived from the same source
             ("streams-deferred", dict(n_defs=(5, 12), n_listen=(2, 5), max_defer=2, posts=0.2, nest=0.6, self_merge=True,
                                       weights=W(defer=5, split=2, map=5, filter=2, merge=7, orelse=3, snapshot=2, hold=1.5, gate=1, once=1)))],
     "C03": [("diamonds", dict(n_defs=(6, 16), sends_per_txn=(2, 4), samples=0.3, wfchecks=0.5, intxn_defs=0.3, n_listen=(2, 5),
-                              weights=W(lift2=6, liftn=2, merge=6, snapshot=3, mapc=3, map=3, csink=4, ssink=4, hold=2, switchs=1, switchc=1, sloop=0.7, cloop=0.7, deepdiamond=0.25))),
+                              weights=W(lift2=6, liftn=2, merge=6, snapshot=3, mapc=3, map=3, csink=4, ssink=4, hold=2, switchs=1, switchc=1, sloop=0.7, cloop=0.7, deepdiamond=0.25, ancestormerge=0.6))),
             # a deferred transaction right behind the one that spawned it: nothing of the first may be seen by the second
             ("diamonds-deferred", dict(n_defs=(6, 14), sends_per_txn=(1, 3), samples=0.3, n_listen=(2, 5), max_defer=2, posts=0.2,
                                        weights=W(defer=4, split=1.5, lift2=4, merge=7, orelse=2, snapshot=3, mapc=2, map=4, csink=3, ssink=4, hold=2)))],
@@ -166,6 +167,9 @@ PROFILES = {
                            weights=W(mapc=5, lift2=6, liftn=3, csink=4, hold=3, ssink=2, updates=2, value=1, switchc=0.7, cloop=0.7, snapmapc=3, snaplazy=1)))],
     "C14": [("brackets-deferred", dict(scoped=0.6, deep_nest=0.5, nest=0.9, obs=0.7, max_defer=3, posts=0.3, weights=W(defer=5, split=3, hold=2, csink=2))),
             ("brackets", dict(scoped=0.7, deep_nest=0.7, nest=0.95, obs=0.6, intxn_defs=0.3, n_txn=(4, 10), malformed=False)),
+            # "no stream still holds an event": a router must not keep what it dispatched beyond the transaction
+            ("brackets-router", dict(scoped=0.4, nest=0.8, obs=0.4, n_txn=(5, 12), n_defs=(3, 8), routehandler=0.9, routelate=0.3, max_defer=1,
+                                     weights=W(router=5, ssink=4, map=3, merge=2, hold=1))),
             # transactions opened by constructors that run inside the pre_eot phase of the outermost close (lazy thunks building FRP)
             ("brackets-dynamic", dict(intxn_defs=0.9, nest=0.95, scoped=0.3, obs=0.5, n_listen=(0, 2), n_defs=(3, 8), sends_per_txn=(1, 3),
                                       weights=W(switchdyn=5, switchlate=4, switchlatec=4, latelisten=2, latehold=2, switchnest=3, csink=4, ssink=3, map=3, hold=2, merge=2)))],
